@@ -212,6 +212,19 @@ def crash_job(job):
         info["class"] = cls
         problems = []
         symptom = None
+        if job.get("n2"):
+            # double crash: the recovery run itself is killed (whole group) before its n2-th call; the state the
+            # NEXT recovery starts from is judged by the worse of the two windows
+            env3 = dict(env, **shim_env(disk, {"RV_SHIM_KILL_AT": str(job["n2"]), "RV_SHIM_VICTIM": "group"}))
+            r2 = runner.run_cmd(disk, ["redo-ifchange"] + job["tops"], env_extra=env3, timeout=40)
+            disk.take_trace()
+            if r2.timed_out:
+                return job, "inconclusive", info
+            w2 = post_crash_window(job, disk)
+            order = {"none": 0, "W3": 1, "W1": 2, "W2": 3}
+            if order.get(w2, 0) > order.get(cls["window"], 0):
+                cls["window"] = w2
+            info["double"] = True
         # --- recovery: simply run redo again ---
         rec = runner.run_cmd(disk, ["redo-ifchange"] + job["tops"], env_extra=env, timeout=40)
         disk.take_trace()
@@ -378,17 +391,30 @@ def run_check(tier, seed):
             for n in range(1 + (seed % step), total + 1, step):
                 for victim in ("self", "group"):
                     jobs.append(dict(job, n=n, victim=victim, total=total))
+        if tier != "quick":
+            # double crashes: for every project/state a seeded sample of (n, n2) pairs
+            import random
+            rng = random.Random(seed * 7919 + 13)
+            for job, log in counted:
+                if log is None:
+                    continue
+                total = len(log)
+                for _ in range(10):
+                    jobs.append(dict(job, n=rng.randint(1, total), n2=rng.randint(1, max(2, total // 2)),
+                                     victim=rng.choice(["self", "group"]), total=total))
         for job, v, info in pool.imap_unordered(crash_job, jobs, chunksize=2):
             evals += 1
             if v == "inconclusive":
                 inconclusive += 1
                 continue
             if info.get("killed"):
-                nontrivial.add(engine.case_hash({k: job[k] for k in ("project", "state", "log", "n", "victim")}))
+                nontrivial.add(engine.case_hash({k: job.get(k) for k in ("project", "state", "log", "n", "victim", "n2")}))
             c = info.get("class", {})
             classes["killed-before:%s:%s" % (c.get("call"), c.get("path"))] += 1
             classes["victim:" + job["victim"]] += 1
             classes["state:" + job["state"]] += 1
+            if info.get("double"):
+                classes["double-crash(recovery run killed too)"] += 1
             if len(samples) < 3 and info.get("killed") and evals % 37 == 5:
                 samples.append({"state": job["state"], "n": job["n"], "of": job["total"], "victim": job["victim"],
                                 "class": c, "tops": job["tops"], "dofiles": job["project"]["dofiles"]})
